@@ -1,6 +1,7 @@
 """C01.10 / C02 / C05.6: the futex command used to wait and the one used to wake have the same
 private/shared flavour, for the flags tiny-std actually passes."""
 from ..engine.fold import fold
+from ..engine.cfg import is_raw_syscall
 from ..engine.prov import show
 
 FUTEX_PRIVATE_FLAG = 128
@@ -14,7 +15,7 @@ def futex_syscall_ops(prog, fnpath):
     if ctx is None:
         return out
     nr = prog.const("sc::nr::FUTEX") or 202
-    for bb, t in ctx.cfg.calls(lambda t: (t.get("callee") or "").startswith("sc::syscall")):
+    for bb, t in ctx.cfg.calls(lambda t: is_raw_syscall(t.get("callee"))):
         args = ctx.args(bb)
         if args and fold(args[0]) == 202:
             out.append((ctx, bb, args[2] if len(args) > 2 else None))
